@@ -26,6 +26,7 @@ import (
 	"bytes"
 	"fmt"
 	"math/rand"
+	"os"
 	"reflect"
 	"sort"
 	"strings"
@@ -417,6 +418,9 @@ func c18prepare(ops []string) {
 			for _, i := range group {
 				pr := c18progs[i]
 				res := c18results[i]
+				if os.Getenv("VERIF_DEBUG") != "" {
+					fmt.Fprintln(os.Stderr, "C18RUN", ci, i, ops[i])
+				}
 				// every program starts from the configuration's options, line 0, nothing collected
 				g.Options = cfg.opts
 				rt.expect = cfg.opts
@@ -751,7 +755,7 @@ func c18gen(r *rand.Rand, tier string, emit func(string)) {
 	}
 	// 4. malformed ops
 	for _, m := range []string{"m 0 | do emit", "m 0 | do end", "m 0 | do brk end", "m 5000 | do emit n 1 end", "m x | do emit n 1 end",
-		"m 0 | def 1 ret p end ;; def 1 ret p end", "m 0 | tog 32", "m 0 | do set 9 n 1 end", "m 0 do", "m 0 | do emit n 1 end ;;", "q", "s", "m 0 | : tog 1"} {
+		"m 0 | def 1 ret p end ;; def 1 ret p end", "m 0 | tog 32", "m 0 | def 0 ret call 0 p end", "m 0 | def 2 if p emit call 2 n 1 else end ret p end", "m 0 | do set 9 n 1 end", "m 0 do", "m 0 | do emit n 1 end ;;", "q", "s", "m 0 | : tog 1"} {
 		put(m)
 	}
 }
